@@ -234,8 +234,10 @@ func ExploreAll(c *rt.Ctx, prop, scn string, known map[string]int) AllStats {
 	// cross-check of the key: every outcome class the bounded search saw must have been reached by the pruned search
 	// (a key that merged states with different futures would lose outcomes)
 	for o := range known {
-		if st.Outcomes[o] == 0 {
-			rt.HarnessError("scenario %s: outcome %q was reached by the preemption-bounded search but not by the unbounded pruned search: the state key is too coarse", scn, o)
+		if st.Outcomes[o] == 0 && st.Complete {
+			// never a verdict about the code: the unbounded search of this scenario is reported as not completed
+			c.Info(fmt.Sprintf("scenario %s: outcome %q was reached by the preemption-bounded search but not by the unbounded pruned search (state key too coarse, or an execution that did not replay): the unbounded search of this scenario is not counted as complete", scn, o))
+			st.Complete = false
 		}
 	}
 	return st
